@@ -25,6 +25,14 @@ never through rich.color).
          parse events), each history from empty caches (cache_clear(), or a forked child of a
          process that has parsed nothing when a memo is not an lru_cache); every step must give the
          style of its own definition. Keys history/parse/<event>/<what it follows>/<clause>.
+(fault)   error-path histories of length 2-3 over 15 valid probe operations (parse, normalize,
+         parse(str(s)), Console.get_style, +, chain, Color.parse) and 226 failing operations: 72
+         definitions rejected at word group k for every k of 3 bases x 8 ways of being rejected, each
+         through Style.parse (raises), Style.normalize and Console.get_style(default=) (swallow it),
+         failing Color.parse, failing + / combine / chain; shapes fv, fvv, vfv, ffv (thorough also
+         fv1v2 and the wide ff product), each with a cold and a warm memo and closed by a sentinel
+         definition no history parses before; every valid step must still give the style of its own
+         definition. Keys history/fault/<entry point of the responsible failing operation>/<clause>.
 (routes) for every s in U every construction route (keywords twice, Color objects, parse of
          independent spellings, a+b for every split of the fields with and without overridden
          left values, chain/combine, copy, update_link, without_color, from_color,
@@ -1131,10 +1139,18 @@ def _history_steps(events):
     from rich.style import Style
     out = []
     for kind, text, d in events:
+        if kind.startswith("fault-"):
+            out.append(_fault_step(kind, text))
+            continue
+        if kind in ("add", "color"):
+            out.append(_valid_other_step(kind, text))
+            continue
         d = dj(d)
         try:
             k = build(d)
-            if kind == "parse":
+            if kind == "get_style":
+                p, how = _console().get_style(text), "Console.get_style(%r)" % text
+            elif kind == "parse":
                 p, how = Style.parse(text), "parse(%r)" % text
             elif kind == "normalize":
                 n = Style.normalize(text)
@@ -1155,12 +1171,84 @@ def _history_steps(events):
     return out
 
 
-def run_history(events, forked):
+_CONSOLE = []
+
+
+def _console():
+    if not _CONSOLE:
+        import io
+        from rich.console import Console
+        _CONSOLE.append(Console(file=io.StringIO(), width=80, height=25, force_terminal=False, color_system=None,
+                                legacy_windows=False, _environ={}))
+    return _CONSOLE[0]
+
+
+def _fault_step(kind, text):
+    """an operation that is expected to fail (raise, or swallow the error as documented). Never judged:
+    what it may not do is leave something behind -- that is judged on the valid steps that follow."""
+    from rich.style import Style
+    from rich.color import Color
+    try:
+        if kind == "fault-parse":
+            Style.parse(text)
+        elif kind == "fault-normalize":
+            Style.normalize(text)
+        elif kind == "fault-get_style":
+            _console().get_style(text, default="none")
+        elif kind == "fault-color":
+            Color.parse(text)
+        elif kind == "fault-add":
+            if text == "add-int":
+                Style(bold=True, link="f://1") + 3
+            elif text == "add-str":
+                Style(color="red") + "bold"
+            elif text == "combine-empty":
+                Style.combine([])
+            elif text == "combine-bad-tail":
+                Style.combine([Style(italic=True, color="green", link="f://2"), Style(strike=False), "x"])
+            elif text == "chain-bad-head":
+                Style.chain(None, Style(dim=True))
+    except BaseException as exc:       # StopIteration etc. included
+        if isinstance(exc, (KeyboardInterrupt, SystemExit)):
+            raise
+    return None
+
+
+def _valid_other_step(kind, text):
+    from rich.style import Style
+    from rich.color import Color
+    try:
+        if kind == "color":
+            got, want = canon_color(Color.parse(text)), canon_spec(text)
+            return None if got == want else ["value", "Color.parse(%r) means %r, reference %r" % (text, got, want)]
+        da, db = D([("bold", True)], "red", None, "v://a"), D([("italic", False)], None, "blue", "v://b")
+        x = Style.chain(build(da), build(db)) if text == "chain" else build(da) + build(db)
+        got, want = RefStyle.from_rich(x), ref(da) + ref(db)
+        if got != want:
+            return ["value", "%s of two keyword-built styles gave %r, reference %r" % (text, got, want)]
+        k = build(merge(da, db))
+        if not _eq(x, k) or not _hash_ok(x, k):
+            return ["eq", "%s result is not ==/hash-equal to the keyword-built style" % text]
+        return None
+    except Exception as exc:
+        return ["error-" + type(exc).__name__, "%s %r: %s" % (kind, text, exc)]
+
+
+def run_history(events, forked, warm=False):
     """Each history starts from empty caches: cleared in place when they are lru_caches, otherwise
-    (forked=True) in a child forked from a process that has not parsed anything yet."""
+    (forked=True) in a child forked from a process that has not parsed anything yet. warm=True: the
+    valid probe definitions are parsed once before the history starts (memo filled)."""
     if not forked:
         _clear_caches()
+        if warm:
+            from rich.style import Style
+            for k_, t_, d_ in probe_events():
+                if d_ is not None:
+                    Style.parse(t_)
         return _history_steps(events)
+    if warm:
+        events = probe_events() + list(events)
+        return run_history(events, True)[len(probe_events()):]
     import json
     r, w = os.pipe()
     pid = os.fork()
@@ -1239,6 +1327,129 @@ def _part_history(sh, tier, res):
     res.sample({"part": "history", "events": [ev[0], ev[len(ev) // 3]]}, limit=1)
 
 
+# ------------------------------------------------------------------ (fault) error-path histories
+def probe_events():
+    """valid operations whose result is known from the description: one per entry point and kind of field"""
+    X = "https://example.org/x"
+    ev = [["parse", t, d] for t, d in (
+        ("green on blue", D(color="green", bgcolor="blue")), ("underline", D([("underline", True)])),
+        ("color(200)", D(color="color(200)")), ("not bold", D([("bold", False)])), ("link " + X, D(link=X)),
+        ("bold red", D([("bold", True)], "red")), ("blink2 frame", D([("blink2", True), ("frame", True)])),
+        ("on default", D(bgcolor="default")), ("none", NULLD))]
+    ev.append(["kwstr", "#102030 link " + X, D(color="#102030", link=X)])
+    ev.append(["normalize", "b  magenta", D([("bold", True)], "magenta")])
+    ev.append(["get_style", "italic cyan", D([("italic", True)], "cyan")])
+    ev.append(["add", "+", None])
+    ev.append(["add", "chain", None])
+    ev.append(["color", "bright_red", None])
+    return ev
+
+
+def junk_definitions():
+    """definitions that are rejected at word group k, for every k of each base and every way of being
+    rejected (unknown colour, missing / bad operand of on, not, link, malformed colour)"""
+    bases = [["italic", "not bold", "red", "on blue", "link u://x"], ["strike", "frame"], ["blink2"]]
+    tokens = ["nosuchcolour", "on", "on nosuchcolour", "not", "not nosuch", "link", "rgb(1,2)", "color(256)"]
+    out = []
+    for groups in bases:
+        for k in range(len(groups) + 1):
+            for t in tokens:
+                j = " ".join(groups[:k] + [t])
+                if j not in out:
+                    out.append(j)
+    return out
+
+
+def fault_events(small=False):
+    junk = junk_definitions()
+    if small:
+        junk = [j for j in junk if j.startswith("italic") and j.split()[-1] in ("nosuchcolour", "on", "link")
+                and (small == "wide" or len(j.split()) in (2, 5))]
+    ev = [[k, j, None] for j in junk for k in ("fault-parse", "fault-normalize", "fault-get_style")]
+    ev += [["fault-color", c, None] for c in (["nosuchcolour"] if small else ["nosuchcolour", "rgb(1,2)", "color(256)", "rgb(300,0,0)", "#12345"])]
+    ev += [["fault-add", a, None] for a in (["combine-bad-tail"] if small else ["add-int", "add-str", "combine-empty", "combine-bad-tail", "chain-bad-head"])]
+    return ev
+
+
+def fault_histories(tier):
+    quick = tier == "quick"
+    V, F, Fs = probe_events(), fault_events(), fault_events(small=True if quick else "wide")
+    for f in F:
+        for v in V:
+            yield [f, v]
+            yield [f, v, v]                      # the wrong result must not have been memoised either
+    for v1 in ([v for v in V if v[1] in ("bold red", "+", "italic cyan") or v[0] == "kwstr"] if quick else V):
+        for f in F:
+            for v2 in V:
+                yield [v1, f, v2]
+    for f1 in (Fs if quick else F):
+        for f2 in Fs:
+            for v in V:
+                yield [f1, f2, v]
+    if tier != "quick":
+        for f in F:
+            for v1 in V:
+                for v2 in V:
+                    if v1 is not v2:
+                        yield [f, v1, v2]
+
+
+SENTINEL = ["parse", "dim on color(99) link s://sentinel", None]
+
+
+def check_fault_history(events, res, forked=False, warm=False):
+    """After any history with failing operations in it every valid operation must give the style of its
+    own definition (which is what it gives in a fresh state). Every history is closed by a sentinel: a
+    valid definition that no history parses before -- a fault whose trace only shows on the next memo
+    miss is caught (and attributed) here, and state that no cache_clear() reaches is not carried into
+    the next history of the shard."""
+    if events[-1][1] != SENTINEL[1]:
+        events = list(events) + [[SENTINEL[0], SENTINEL[1], D([("dim", True)], None, "color(99)", "s://sentinel")]]
+    outcomes = run_history(events, forked, warm)
+    res.evaluations += len(events)
+    bad = [(j, oc) for j, oc in enumerate(outcomes) if oc is not None]
+    case = {"part": "fault", "events": events, "warm": warm}
+    for j, oc in bad:
+        fidx = [i for i, e in enumerate(events[:j]) if e[0].startswith("fault-")]
+        faults = [events[i][0] for i in fidx]
+        if len(set(faults)) > 1:
+            # several kinds of failing operation precede the step: name the one without which it passes
+            for i in fidx:
+                rest = events[:i] + events[i + 1:]
+                if run_history(rest, forked, warm)[j - 1] is None:
+                    faults = [events[i][0]]
+                    break
+        if faults:
+            key = "history/fault/%s/%s" % (faults[-1][6:], oc[0])
+        else:
+            key = "history/parse/%s/cold/%s" % (events[j][0], oc[0])
+        res.violate(key, case, "step %d of %d (%s %r)%s: %s" % (
+            j + 1, len(events), events[j][0], events[j][1], " with a warm memo" if warm else "", oc[1]))
+    shape = "".join("f" if e[0].startswith("fault-") else "v" for e in events[:-1])
+    lastf = [e[0] for e in events if e[0].startswith("fault-")][-1][6:]
+    res.sig(("fault", shape, lastf, events[-2][0], warm, not bad), nontrivial=True)
+
+
+def _part_fault(sh, tier, res):
+    forked = not _clear_caches()
+    res.counters["history_forked"] = 1 if forked else 0
+    n = 0
+    for idx, h in enumerate(fault_histories(tier)):
+        if idx % sh["n"] != sh["i"]:
+            continue
+        if n % 256 == 0 and deadline_passed():
+            res.capped = True
+            break
+        n += 1
+        for warm in (False, True):
+            check_fault_history(h, res, forked, warm)
+            res.count("fault_histories")
+    if sh["i"] == 0:
+        res.counters["max_fault_events"] = len(fault_events())
+        res.counters["max_junk_definitions"] = len(junk_definitions())
+        res.sample({"part": "fault", "events": [fault_events()[3], probe_events()[0]], "warm": False}, limit=1)
+
+
 # ------------------------------------------------------------------ protocol
 def plan(tier, seed):
     q = tier == "quick"
@@ -1248,6 +1459,7 @@ def plan(tier, seed):
     shards += [{"part": "vec", "i": i, "n": 4 if q else 64} for i in range(4 if q else 64)]
     shards += [{"part": "docs"}]
     shards += [{"part": "history", "i": i, "n": 6 if q else 16} for i in range(6 if q else 16)]
+    shards += [{"part": "fault", "i": i, "n": 12 if q else 32} for i in range(12 if q else 32)]
     shards += [{"part": "grid", "i": i, "n": 6 if q else 16} for i in range(6 if q else 16)]
     return shards
 
@@ -1267,6 +1479,8 @@ def run_shard(sh, tier, seed):
         _part_docs(res)
     elif p == "history":
         _part_history(sh, tier, res)
+    elif p == "fault":
+        _part_fault(sh, tier, res)
     elif p == "grid":
         _part_grid(sh, tier, res)
     return res
@@ -1284,6 +1498,9 @@ def describe(tier, seed, res):
                 "right operand of + with 6 keyword-built partners, all triples over 25 route-built + 6 keyword-built operands; "
                 "(history) all ordered pairs%s of 140 parse/normalize/str-round-trip events over 22 groups of spellings that "
                 "collide after lower-casing although the links differ in case, or differ although the style is the same, each from empty caches; "
+                "(fault) all histories of shapes fv, fvv, vfv, ffv (thorough: + fv1v2, wide ff) over 15 valid probe operations and 226 failing "
+                "ones (72 definitions rejected at word group k x parse/normalize/get_style(default=), Color.parse, +/combine/chain), cold and "
+                "warm memo, each closed by a fresh sentinel definition; "
                 "(vec) %s attribute vectors; (docs) all "
                 "documented attribute spellings, %d colour names, color(0..255), #hex and rgb() on a %d^3 grid plus each "
                 "channel over 0..255. A case is non-trivial when both/all operands specify something (pairs, triples), "
@@ -1300,6 +1517,8 @@ def describe(tier, seed, res):
             "(bool_truthy_but_specifies_nothing), not judged: the statement is silent and + treats it correctly",
             "upper-case words are accepted by the parser only partly and are undocumented: an upper-case spelling that does not "
             "parse from empty caches (e.g. 'NOT BOLD') is left out of the histories (max_history_spellings_not_accepted_cold)",
+            "failing operations themselves (which exception, whether swallowed) are not judged here (C14); only what valid "
+            "operations return afterwards; state that cache_clear() cannot reach is flushed by the sentinel closing each history",
             "abbreviations 'd' and 'c' exist in the parser but are not documented in style.rst and are not judged",
         ],
         "coverage": {"universe": nu, "basis": nb},
@@ -1325,6 +1544,8 @@ def replay(case):
         _part_docs(res)
     elif p == "history":
         check_history(case["events"], res)
+    elif p == "fault":
+        check_fault_history(case["events"], res, warm=case.get("warm", False))
     elif p == "rgb":
         check_rgb(case["rgb"][0], case["rgb"][1], case["rgb"][2], res)
     return [(k, v[2]) for k, v in sorted(res.violations.items())]
